@@ -1,5 +1,7 @@
 (* StdTextP.v — what libyang prints (JsonText.json_esc, XmlText.xml_esc) read by the standard
-   readers of StdText. *)
+   readers of StdText. XML: for every string of XML Chars the conformant reader reports exactly the
+   payload, in content and in attribute values (unconditional since the printer writes CR, and
+   TAB/LF inside attributes, as character references: commits 6fdbff2, 47fa563). *)
 From LY Require Import Base Utf8 XmlText XmlTextP JsonText JsonTextP StdText.
 From Coq Require Import ZifyBool ZifyNat ZifyN.
 Local Open Scope N_scope.
@@ -235,24 +237,28 @@ Qed.
 (* XML 1.0: lyxml_dump_text output read by a conformant processor                          *)
 (* ====================================================================================== *)
 
-(* payloads for which the printed text is read back unchanged: no CR at all; in attribute
-   values also no TAB and no LF *)
-Definition xml_std_safe (attr : bool) (s : bytes) : Prop :=
-  Forall (fun b => b <> 13 /\ (attr = true -> b <> 9 /\ b <> 10)) s.
+(* the payloads: the UTF-8 encoding of any sequence of characters matching production [2] Char
+   (every Unicode scalar value except the C0 controls other than TAB, LF, CR and except U+FFFE,
+   U+FFFF) - CR, TAB and LF included, in element content and in attribute values alike *)
+Definition xml_chars (cps : list N) : Prop := forallb is_xml_char cps = true.
 
 Lemma xml_esc_cons attr b s : xml_esc attr (b :: s) = xml_esc_byte attr b ++ xml_esc attr s.
 Proof. reflexivity. Qed.
 
-(* the printer writes a CR only for a CR, and never a raw greater-than sign *)
-Lemma xml_esc_no13 attr s : Forall (fun b => b <> 13) s -> Forall (fun b => b <> 13) (xml_esc attr s).
+(* the printer never writes a raw CR (so end-of-line handling leaves its output alone) and never a
+   raw greater-than sign *)
+Lemma xml_esc_no13 attr s : Forall (fun b => b <> 13) (xml_esc attr s).
 Proof.
-  induction 1 as [|b s Hb _ IH]; [constructor|].
+  induction s as [|b s IH]; [constructor|].
   rewrite xml_esc_cons, xml_esc_byte_spec.
   destruct (b =? 38); [repeat (constructor; [discriminate|]); exact IH|].
   destruct (b =? 60); [repeat (constructor; [discriminate|]); exact IH|].
   destruct (b =? 62); [repeat (constructor; [discriminate|]); exact IH|].
+  destruct (b =? 13) eqn:E; [repeat (constructor; [discriminate|]); exact IH|].
+  destruct ((b =? 9) && attr); [repeat (constructor; [discriminate|]); exact IH|].
+  destruct ((b =? 10) && attr); [repeat (constructor; [discriminate|]); exact IH|].
   destruct ((b =? 34) && attr); [repeat (constructor; [discriminate|]); exact IH|].
-  constructor; assumption.
+  constructor; [lia|exact IH].
 Qed.
 
 Lemma xml_esc_no62 attr s : Forall (fun b => b <> 62) (xml_esc attr s).
@@ -262,6 +268,9 @@ Proof.
   destruct (b =? 38); [repeat (constructor; [discriminate|]); exact IH|].
   destruct (b =? 60); [repeat (constructor; [discriminate|]); exact IH|].
   destruct (b =? 62) eqn:E; [repeat (constructor; [discriminate|]); exact IH|].
+  destruct (b =? 13); [repeat (constructor; [discriminate|]); exact IH|].
+  destruct ((b =? 9) && attr); [repeat (constructor; [discriminate|]); exact IH|].
+  destruct ((b =? 10) && attr); [repeat (constructor; [discriminate|]); exact IH|].
   destruct ((b =? 34) && attr); [repeat (constructor; [discriminate|]); exact IH|].
   constructor; [lia|exact IH].
 Qed.
@@ -293,99 +302,146 @@ Proof. reflexivity. Qed.
 Lemma xstep_quot f attr r acc :
   std_xml_expand (S f) attr (38 :: 113 :: 117 :: 111 :: 116 :: 59 :: r) acc = std_xml_expand f attr r (acc ++ [34]).
 Proof. reflexivity. Qed.
+(* the character references the printer writes (4.1): a referenced CR, TAB or LF is not subject to
+   end-of-line handling nor to attribute-value normalisation *)
+Lemma xstep_cr f attr r acc :
+  std_xml_expand (S f) attr (38 :: 35 :: 120 :: 68 :: 59 :: r) acc = std_xml_expand f attr r (acc ++ [13]).
+Proof. reflexivity. Qed.
+Lemma xstep_tab f attr r acc :
+  std_xml_expand (S f) attr (38 :: 35 :: 120 :: 57 :: 59 :: r) acc = std_xml_expand f attr r (acc ++ [9]).
+Proof. reflexivity. Qed.
+Lemma xstep_lf f attr r acc :
+  std_xml_expand (S f) attr (38 :: 35 :: 120 :: 65 :: 59 :: r) acc = std_xml_expand f attr r (acc ++ [10]).
+Proof. reflexivity. Qed.
 
-Lemma std_xml_expand_printed attr s :
-  xml_std_safe attr s ->
+Lemma xml_char_scalar cp : is_xml_char cp = true -> is_scalar cp = true.
+Proof. unfold is_xml_char, is_scalar. lia. Qed.
+
+Lemma high_plain c : Forall (fun b => 128 <= b) c -> Forall plain c.
+Proof. apply Forall_impl. intros b Hb. unfold plain. lia. Qed.
+
+Lemma std_xml_expand_printed attr cps :
+  xml_chars cps ->
   forall fuel acc,
-    (length (xml_esc attr s) < fuel)%nat ->
-    std_xml_expand fuel attr (xml_esc attr s) acc = Some (acc ++ s).
+    (length (xml_esc attr (flat_map utf8_encode cps)) < fuel)%nat ->
+    std_xml_expand fuel attr (xml_esc attr (flat_map utf8_encode cps)) acc = Some (acc ++ flat_map utf8_encode cps).
 Proof.
-  induction 1 as [|b s Hb _ IH]; intros fuel acc Hf.
+  unfold xml_chars.
+  induction cps as [|cp cps IH]; intros Hv fuel acc Hf.
   - destruct fuel as [|f]; [cbn in Hf; lia|]. cbn. rewrite app_nil_r. reflexivity.
-  - destruct fuel as [|f]; [lia|].
-    pose proof (xml_esc_no62 attr s) as H62.
-    rewrite xml_esc_cons in Hf |- *. rewrite app_length in Hf.
-    rewrite xml_esc_byte_spec in Hf |- *.
-    destruct (b =? 38) eqn:E38.
-    { apply N.eqb_eq in E38; subst b. cbn [app length] in Hf |- *. rewrite xstep_amp.
-      rewrite IH by lia. rewrite <- app_assoc. reflexivity. }
-    destruct (b =? 60) eqn:E60.
-    { apply N.eqb_eq in E60; subst b. cbn [app length] in Hf |- *. rewrite xstep_lt.
-      rewrite IH by lia. rewrite <- app_assoc. reflexivity. }
-    destruct (b =? 62) eqn:E62.
-    { apply N.eqb_eq in E62; subst b. cbn [app length] in Hf |- *. rewrite xstep_gt.
-      rewrite IH by lia. rewrite <- app_assoc. reflexivity. }
-    destruct ((b =? 34) && attr) eqn:E34.
-    { apply andb_true_iff in E34. destruct E34 as [E34 _]. apply N.eqb_eq in E34; subst b.
-      cbn [app length] in Hf |- *. rewrite xstep_quot.
-      rewrite IH by lia. rewrite <- app_assoc. reflexivity. }
-    (* raw byte *)
-    cbn [app length] in Hf |- *. cbn [std_xml_expand]. rewrite E38, E60.
-    assert (Hcd : starts_with [93; 93; 62] (b :: xml_esc attr s) = false).
-    { apply no_cdata_close. constructor; [lia|exact H62]. }
-    rewrite Hcd, andb_false_r.
-    destruct Hb as [H13 Hws].
-    destruct attr.
-    + destruct (Hws eq_refl) as [H9 H10]. cbn [andb].
-      destruct (is_xml_S b) eqn:ES.
-      * assert (b = 32) by (unfold is_xml_S in ES; lia). subst b.
-        rewrite IH by lia. rewrite <- app_assoc. reflexivity.
-      * rewrite IH by lia. rewrite <- app_assoc. reflexivity.
-    + cbn [andb]. rewrite IH by lia. rewrite <- app_assoc. reflexivity.
+  - cbn [forallb] in Hv. apply andb_true_iff in Hv. destruct Hv as [Hcp Hv]. specialize (IH Hv).
+    cbn [flat_map] in Hf |- *.
+    destruct fuel as [|f]; [lia|].
+    pose proof (xml_esc_no62 attr (flat_map utf8_encode cps)) as H62.
+    destruct (N.lt_ge_cases cp 128) as [Hlow|Hhigh].
+    + (* one byte *)
+      rewrite (utf8_encode_ascii cp Hlow) in Hf |- *. cbn [app] in Hf |- *.
+      rewrite xml_esc_cons in Hf |- *. rewrite app_length in Hf.
+      rewrite xml_esc_byte_spec in Hf |- *.
+      destruct (cp =? 38) eqn:E38.
+      { apply N.eqb_eq in E38; subst cp. cbn [app length] in Hf |- *. rewrite xstep_amp.
+        rewrite IH by lia. rewrite <- app_assoc. reflexivity. }
+      destruct (cp =? 60) eqn:E60.
+      { apply N.eqb_eq in E60; subst cp. cbn [app length] in Hf |- *. rewrite xstep_lt.
+        rewrite IH by lia. rewrite <- app_assoc. reflexivity. }
+      destruct (cp =? 62) eqn:E62.
+      { apply N.eqb_eq in E62; subst cp. cbn [app length] in Hf |- *. rewrite xstep_gt.
+        rewrite IH by lia. rewrite <- app_assoc. reflexivity. }
+      destruct (cp =? 13) eqn:E13.
+      { apply N.eqb_eq in E13; subst cp. cbn [app length] in Hf |- *. rewrite xstep_cr.
+        rewrite IH by lia. rewrite <- app_assoc. reflexivity. }
+      destruct ((cp =? 9) && attr) eqn:E9.
+      { apply andb_true_iff in E9. destruct E9 as [E9 _]. apply N.eqb_eq in E9; subst cp.
+        cbn [app length] in Hf |- *. rewrite xstep_tab.
+        rewrite IH by lia. rewrite <- app_assoc. reflexivity. }
+      destruct ((cp =? 10) && attr) eqn:E10.
+      { apply andb_true_iff in E10. destruct E10 as [E10 _]. apply N.eqb_eq in E10; subst cp.
+        cbn [app length] in Hf |- *. rewrite xstep_lf.
+        rewrite IH by lia. rewrite <- app_assoc. reflexivity. }
+      destruct ((cp =? 34) && attr) eqn:E34.
+      { apply andb_true_iff in E34. destruct E34 as [E34 _]. apply N.eqb_eq in E34; subst cp.
+        cbn [app length] in Hf |- *. rewrite xstep_quot.
+        rewrite IH by lia. rewrite <- app_assoc. reflexivity. }
+      (* a character written raw *)
+      cbn [app length] in Hf |- *. cbn [std_xml_expand]. rewrite E38, E60.
+      assert (Hcd : starts_with [93; 93; 62] (cp :: xml_esc attr (flat_map utf8_encode cps)) = false).
+      { apply no_cdata_close. constructor; [lia|exact H62]. }
+      rewrite Hcd, andb_false_r. rewrite (andb_comm attr (cp =? 34)), E34.
+      assert (Hd : std_utf8_decode (cp :: xml_esc attr (flat_map utf8_encode cps)) =
+                   Some (cp, xml_esc attr (flat_map utf8_encode cps))).
+      { unfold std_utf8_decode. assert (E : (cp <? 128) = true) by lia. rewrite E. reflexivity. }
+      rewrite Hd, Hcp. rewrite (utf8_encode_ascii cp Hlow).
+      destruct attr.
+      * rewrite andb_true_r in E9, E10. cbn [andb].
+        destruct (is_xml_S cp) eqn:ES.
+        -- assert (cp = 32) by (unfold is_xml_S in ES; lia). subst cp.
+           rewrite IH by lia. rewrite <- app_assoc. reflexivity.
+        -- rewrite IH by lia. rewrite <- app_assoc. reflexivity.
+      * cbn [andb]. rewrite IH by lia. rewrite <- app_assoc. reflexivity.
+    + (* several bytes, all with the top bit set, written raw *)
+      pose proof (utf8_encode_high cp Hhigh) as Hh.
+      rewrite xml_esc_app in Hf |- *. rewrite (xml_esc_plain attr _ (high_plain _ Hh)) in Hf |- *.
+      rewrite app_length in Hf.
+      pose proof (std_utf8_decode_encode cp (xml_esc attr (flat_map utf8_encode cps)) (xml_char_scalar cp Hcp)) as Hd.
+      pose proof (utf8_encode_nonnil cp) as Hnn.
+      assert (ES : is_xml_S cp = false) by (unfold is_xml_S; lia).
+      remember (utf8_encode cp) as enc eqn:Eenc.
+      destruct enc as [|b0 t]; [congruence|].
+      pose proof (Forall_inv Hh) as Hb0. cbn beta in Hb0.
+      cbn [app] in Hd |- *. cbn [std_xml_expand].
+      assert (E38 : (b0 =? 38) = false) by lia. assert (E60 : (b0 =? 60) = false) by lia.
+      assert (E34 : (b0 =? 34) = false) by lia. assert (E93 : (93 =? b0) = false) by lia.
+      rewrite E38, E60, E34. cbn [starts_with]. rewrite E93. cbn [andb]. rewrite !andb_false_r.
+      rewrite Hd, Hcp, ES, andb_false_r.
+      rewrite <- Eenc.
+      rewrite IH by (cbn [length] in Hf; lia). rewrite <- app_assoc. reflexivity.
 Qed.
 
-Lemma xml_std_safe_no13 attr s : xml_std_safe attr s -> Forall (fun b => b <> 13) s.
-Proof. unfold xml_std_safe. apply Forall_impl. intros b [H _]. exact H. Qed.
-
-(* C12, XML text: under the forced hypothesis, a conformant processor reports the payload *)
-Theorem xml_text_std_proof attr s :
-  xml_std_safe attr s -> std_xml_text attr (xml_esc attr s) = Some s.
+(* C12, XML text: a conformant processor reports exactly the payload, for every string of Chars,
+   as element content (attr = false) and as attribute value (attr = true) *)
+Theorem xml_text_std_proof attr cps :
+  xml_chars cps ->
+  std_xml_text attr (xml_esc attr (flat_map utf8_encode cps)) = Some (flat_map utf8_encode cps).
 Proof.
   intro H. unfold std_xml_text.
-  rewrite (xml_eol_id _ (xml_esc_no13 attr s (xml_std_safe_no13 attr s H))).
-  rewrite (std_xml_expand_printed attr s H _ []); [reflexivity|lia].
+  rewrite (xml_eol_id _ (xml_esc_no13 attr _)).
+  rewrite (std_xml_expand_printed attr cps H _ []); [reflexivity|lia].
 Qed.
 
-Corollary xml_content_std_proof s :
-  Forall (fun b => b <> 13) s -> std_xml_text false (xml_esc false s) = Some s.
-Proof.
-  intro H. apply xml_text_std_proof. unfold xml_std_safe. revert H. apply Forall_impl.
-  intros b Hb. split; [exact Hb|discriminate].
-Qed.
+Corollary xml_content_std_proof cps :
+  xml_chars cps -> std_xml_text false (xml_esc false (flat_map utf8_encode cps)) = Some (flat_map utf8_encode cps).
+Proof. apply xml_text_std_proof. Qed.
 
-Corollary xml_attr_std_proof s :
-  Forall (fun b => b <> 9 /\ b <> 10 /\ b <> 13) s -> std_xml_text true (xml_esc true s) = Some s.
-Proof.
-  intro H. apply xml_text_std_proof. unfold xml_std_safe. revert H. apply Forall_impl.
-  intros b (H9 & H10 & H13). split; [exact H13|intros _; split; assumption].
-Qed.
+Corollary xml_attr_std_proof cps :
+  xml_chars cps -> std_xml_text true (xml_esc true (flat_map utf8_encode cps)) = Some (flat_map utf8_encode cps).
+Proof. apply xml_text_std_proof. Qed.
 
-(* the hypotheses are necessary: lyxml_dump_text writes CR (and, in attribute values, TAB and LF)
-   raw, and a conformant processor normalises them (2.11, 3.3.3) *)
-Lemma xml_text_std_cr_refuted_proof :
-  exists s, std_xml_text false (xml_esc false s) <> Some s /\
-            exists s', std_xml_text false (xml_esc false s) = Some s'.
-Proof. exists [120; 13; 121]. split; [vm_compute; discriminate|]. exists [120; 10; 121]. reflexivity. Qed.
+(* the hypothesis is necessary: XML 1.0 has no way at all to write a character outside Char (for
+   example U+0001: not even as a reference, 4.1 Legal Character); lyxml_dump_text() writes such a
+   byte raw and the result is not well-formed. libyang's own XML lexer refuses these characters too
+   (ly_getutf8), so they can only come from another input format or from the API. *)
+Lemma xml_text_std_nonchar_refuted_proof :
+  exists cps, forallb is_scalar cps = true /\ std_xml_text false (xml_esc false (flat_map utf8_encode cps)) = None.
+Proof. exists [97; 1; 98]. split; reflexivity. Qed.
 
-Lemma xml_attr_ws_refuted_proof :
-  (exists s, Forall (fun b => b <> 13) s /\ std_xml_text true (xml_esc true s) <> Some s) /\
-  std_xml_text true (xml_esc true [97; 9; 98]) = Some [97; 32; 98] /\
-  std_xml_text true (xml_esc true [97; 10; 98]) = Some [97; 32; 98] /\
-  std_xml_text true (xml_esc true [97; 13; 10; 98]) = Some [97; 32; 98].
-Proof.
-  split; [|vm_compute; repeat split].
-  exists [97; 9; 98]. split; [repeat constructor; discriminate|vm_compute; discriminate].
-Qed.
-
+(* CR, TAB, LF (alone, paired, leading, trailing), every escape class, the CDATA-section-close
+   sequence, DEL, 2-, 3- and 4-byte characters - as content and as attribute value *)
 Example xml_text_std_example :
-  let s := [97; 38; 60; 62; 34; 39; 9; 10; 32; 93; 93; 62; 195; 169; 240; 159; 152; 128; 1; 127] in
-  xml_std_safe false s /\ std_xml_text false (xml_esc false s) = Some s /\
-  let a := [97; 38; 60; 62; 34; 39; 32; 93; 93; 62; 195; 169] in
-  xml_std_safe true a /\ std_xml_text true (xml_esc true a) = Some a.
-Proof.
-  cbv zeta. split; [|split; [|split]].
-  - repeat constructor; discriminate.
-  - vm_compute. reflexivity.
-  - repeat constructor; discriminate.
-  - vm_compute. reflexivity.
-Qed.
+  let cps := [13; 97; 38; 60; 62; 34; 39; 9; 10; 13; 10; 13; 13; 32; 93; 93; 62; 233; 8364; 128512; 127; 65533; 10; 9; 13] in
+  xml_chars cps /\
+  std_xml_text false (xml_esc false (flat_map utf8_encode cps)) = Some (flat_map utf8_encode cps) /\
+  std_xml_text true (xml_esc true (flat_map utf8_encode cps)) = Some (flat_map utf8_encode cps).
+Proof. vm_compute. repeat split. Qed.
+
+(* what the fixes 6fdbff2 / 47fa563 changed: the former output (CR, and TAB/LF in attributes,
+   written raw) is read as something else by a conformant processor, the present output is not *)
+Example xml_text_std_cr_tab_lf_example :
+  xml_esc false [120; 13; 121] = [120; 38; 35; 120; 68; 59; 121] /\
+  std_xml_text false [120; 13; 121] = Some [120; 10; 121] /\
+  std_xml_text false (xml_esc false [120; 13; 121]) = Some [120; 13; 121] /\
+  std_xml_text false (xml_esc false [120; 13; 10; 121]) = Some [120; 13; 10; 121] /\
+  xml_esc true [97; 9; 98; 10; 99; 13; 10] = [97; 38;35;120;57;59; 98; 38;35;120;65;59; 99; 38;35;120;68;59; 38;35;120;65;59] /\
+  std_xml_text true [97; 9; 98; 10; 99; 13; 10] = Some [97; 32; 98; 32; 99; 32] /\
+  std_xml_text true (xml_esc true [97; 9; 98; 10; 99; 13; 10]) = Some [97; 9; 98; 10; 99; 13; 10] /\
+  std_xml_text false (xml_esc false [97; 9; 98; 10; 99]) = Some [97; 9; 98; 10; 99].
+Proof. vm_compute. repeat split. Qed.
